@@ -152,6 +152,74 @@ def _worker_hist(chunk):
     return out
 
 
+_CHILD = r"""
+import json, sys, logging
+logging.disable(logging.CRITICAL)
+from mc.props import c10
+print(json.dumps(c10.fresh_history(json.loads(sys.argv[1]), sys.argv[2])))
+"""
+
+
+def fresh_history(seq, detail):
+    """Run the given (program, context) sequence in THIS (fresh) process; return the normalised trace of the last one."""
+    harness.quiet()
+    scratch = harness.enter_scratch()
+    out = None
+    for prog, ctx in seq:
+        prog = tuple(prog)
+        try:
+            recs, _, real, _, _ = traces.traced_single(prog, first_accepted_kind(prog), ctx, detail=detail, mode="file", scratch=scratch)
+            out = {"trace": normalise(recs), "obs": observe(real)}
+        except Exception as exc:
+            out = {"trace": None, "obs": f"loader: {type(exc).__name__}"}
+    return out
+
+
+def _worker_fresh(chunk):
+    """trace(A) in a fresh process == trace(A) after B in another fresh process (nothing B leaves behind may show in A's trace)."""
+    import os
+    import subprocess
+    import sys
+
+    out = {"n": 0, "viol": []}
+    for (aprog, actx), (bprog, bctx), detail in chunk:
+        def child(seq):
+            p = subprocess.run([sys.executable, "-c", _CHILD, json.dumps(seq), detail], capture_output=True, text=True, env=dict(os.environ), timeout=300)
+            if p.returncode != 0:
+                raise RuntimeError(p.stderr[-500:])
+            return json.loads(p.stdout.strip().splitlines()[-1])
+        alone = child([[list(aprog), actx]])
+        after = child([[list(bprog), bctx], [list(aprog), actx]])
+        out["n"] += 2
+        if alone["trace"] != after["trace"]:
+            d = first_diff(alone["trace"], after["trace"])
+            out["viol"].append(("trace-depends-on-process-history",
+                                f"A={list(aprog)} ctx={actx}: its trace in a fresh process differs from its trace after B={list(bprog)} ctx={bctx} (detail={detail}): {d[:300]}",
+                                {"kind": "fresh", "a": [list(aprog), actx], "b": [list(bprog), bctx], "detail": detail}))
+        elif alone["obs"] != after["obs"]:
+            out["viol"].append(("result-depends-on-process-history", f"A={list(aprog)} after B={list(bprog)}: {first_diff(alone['obs'], after['obs'])[:300]}",
+                                {"kind": "fresh", "a": [list(aprog), actx], "b": [list(bprog), bctx], "detail": detail}))
+    return out
+
+
+# pairs (A, B) that share processor classes under different placements of the same parameter, so that anything cached
+# per class / per name by B would be wrong for A
+FRESH_PAIRS = [
+    ((("src", "mul"), {"factor": 5.0}), (("src", "mul3"), {})),
+    ((("src", "mul3"), {}), (("src", "mul"), {"factor": 5.0})),
+    ((("src", "mul"), {}), (("src", "mul3"), {})),
+    ((("src", "two"), {"factor": 5.0}), (("src", "two_cfg"), {"factor": 5.0})),
+    ((("src", "two_cfg"), {"factor": 5.0}), (("src", "two"), {"factor": 5.0, "addend": 0.75})),
+    ((("srcdef",), {}), (("srcdef",), {"value": 9.0})),
+    ((("src_ctx",), {"value": 9.0}), (("src",), {})),
+    ((("src",), {}), (("src_ctx",), {"value": 9.0})),
+    ((("src", "muldef"), {}), (("src", "muldef"), {"factor": 5.0})),
+    ((("src", "sink_ctx"), {"path": "p.txt"}), (("src", "sink_cfg"), {})),
+    ((("src", "sweep_op", "sum"), {}), (("sweep_src", "sum"), {})),
+    ((("coll_probe",), {}), (("src", "probe_r"), {})),
+]
+
+
 def check(tier: str, seed: int) -> Result:
     if tier == "quick":
         progs = gen.programs(ALPHA_FULL, [1, 2]) + gen.programs(ALPHA_SMALL[:9], [3])
@@ -178,8 +246,17 @@ def check(tier: str, seed: int) -> Result:
         nh += o["n"]
         for sig, msg, case, field in o["viol"]:
             viols.append(Violation(sig, msg, case))
+    pairs = [p for p in FRESH_PAIRS if all(sym in gen.SYMBOLS for sym in p[0][0] + p[1][0])]
+    if tier == "thorough":
+        pairs = pairs + [(a, b) for a in A_MENU for b in B_MENU]
+    fjobs = [(a, b, d) for a, b in pairs for d in (["all"] if tier == "quick" else ["hash", "all"])]
+    nf = 0
+    for o in core.pmap_chunks(_worker_fresh, fjobs, chunk=1):
+        nf += o["n"]
+        for sig, msg, case in o["viol"]:
+            viols.append(Violation(sig, msg, case))
     cov = {
-        "evaluations": n + nh, "distinct_nontrivial": len(nontrivial) + nh,
+        "evaluations": n + nh + nf, "distinct_nontrivial": len(nontrivial) + nh + len(fjobs), "fresh_process_runs": nf,
         "rule": "observation: all programs of length 1-2 over a 20-symbol alphabet (+ length 3: reduced; thorough: full) x {empty, full} "
                 "context, each run untraced and traced at detail levels, everything observable compared (data, context, exception class / "
                 "message / identity, failing node, processor log); histories: 7 pipelines A x 6 pipelines B x details x {same Pipeline "
@@ -193,6 +270,9 @@ def check(tier: str, seed: int) -> Result:
 
 
 def replay(case) -> List[Violation]:
+    if case["kind"] == "fresh":
+        o = _worker_fresh([((tuple(case["a"][0]), case["a"][1]), (tuple(case["b"][0]), case["b"][1]), case["detail"])])
+        return [Violation(s, m, c) for s, m, c in o["viol"]]
     if case["kind"] == "obs":
         o = _worker_obs([(tuple(case["prog"]), [case["detail"]])])
         return [Violation(s, m, c) for s, m, c in o["viol"] if c["ctx"] == case["ctx"]]
